@@ -294,6 +294,11 @@ K6_CALL = [((a, "CM.GoTie.ICall." + t, d), "I_Call") for a, t, d in [
     ("tie_k6_checkErrFailure_nil", "checkErrFailure_nil", "… and does nothing for a nil error"),
     ("tie_k6_attemptToOpen", "attemptToOpen_solo", "`attemptToOpen` likewise")]]
 
+K6_FB = [((a, "CM.GoTie.IFb." + t, d), "I_Fb") for a, t, d in [
+    ("tie_k6_fallback", "fallback_solo", "today's `fallback`, the Add on the fallback gauge, the load of its limit, the user's fallback and the deferred Add(-1) each preceded by an arbitrary move of the others, takes exactly the steps of the bulkhead model's thread: refused ⇔ the limit error without invoking the function; otherwise the fallback's own result — or its panic passing through, the slot released"),
+    ("tie_k6_fallback_refused", "refused_not_invoked", "a refused fallback was not invoked"),
+    ("tie_k6_fallback_disabled", "fallback_disabled", "a disabled fallback returns the run step's error and touches nothing")]]
+
 PROPS = {
     "C01": ("load shedding: who is admitted is decided by `allowNewRun` / `run`",
             [C("IsOpen"), C("allowNewRun"), RUN] + NEVER + ERR_OPEN + K6_CALL + K6_TRANS + K6_CORE + RUN_C01 + RUN_EVENTS[:1] + RUN_VIEWS[:1] + RUN_LIVE + HFAC_CLOSER[:3] + HFAC_LAYERS[:1]),
@@ -318,10 +323,10 @@ PROPS = {
                 ("tie_GoHCloser_ShouldClose", "CM.GoTie.GoHCloser.go_ShouldClose_eq", "`ShouldClose` compares the successes in a row with the required number")]) + TC +
             [C("close"), C("checkSuccess")] + CLOSER_CFG + K6_TC + TC_HOOK + HFAC_CLOSER + HFAC_CHAIN[:1] + HFAC_LAYERS[:1]),
     "C04": ("the gauges and limits: `throttleConcurrentCommands`, the deferred decrements in `run` / `fallback`, the published limits",
-            [C("throttleConcurrentCommands"), C("ConcurrentCommands"), C("ConcurrentFallbacks"), RUN, FALLBACK] + LIVECFG + ERR_LIMIT + ATOM_I64 + RUN_C04 + RUN_EVENTS[:1] + RUN_VIEWS[1:]),
+            [C("throttleConcurrentCommands"), C("ConcurrentCommands"), C("ConcurrentFallbacks"), RUN, FALLBACK] + LIVECFG + ERR_LIMIT + ATOM_I64 + RUN_C04 + RUN_EVENTS[:1] + RUN_VIEWS[1:] + K6_FB + K6_CORE),
     "C05": ("the classification chain of `run`",
             [C("checkErrBadRequest"), C("checkErrTimeout"), C("checkErrInterrupt"), C("checkErrFailure"), C("checkSuccess"), RUN] + FAN_RUN + ALL + ERR_BAD + CTOR + RUN_EVENTS),
-    "C06": ("fallback rules: `Execute` and `fallback`", [FALLBACK, EXECUTE, RUNENTRY] + FAN_FB + ERR_BAD + ERR_NOTBAD),
+    "C06": ("fallback rules: `Execute` and `fallback`", [FALLBACK, EXECUTE, RUNENTRY] + FAN_FB + ERR_BAD + ERR_NOTBAD + K6_FB[:1] + K6_FB[2:]),
     "C07": ("contexts: the derived deadline context in `run`, the caller's context everywhere else", [RUN, FALLBACK, EXECUTE]),
     "C08": ("overrides and pass-through: `IsOpen`, `allowNewRun`, the transitions, `Execute`'s Disabled branch, the published flags",
             [C("IsOpen"), C("isEmptyOrNil"), C("allowNewRun"), C("openCircuit"), C("close"), C("attemptToOpen"), EXECUTE] + LIVECFG + SETCFG + ATOM_BOOL + CIRC_MISC),
@@ -372,7 +377,7 @@ UNITS = {"F_": "gocircuit", "All": "gocircuit", "T_GoHOpener": "gohopener", "T_G
          "T_GoHFacLayers": ["gohfaclayers"], "T_GoHFacCloser": ["gohfaccloser"], "T_GoHFacOpener": ["gohfacopener", "gohfacopenerset"], "T_GoHFacOpenerSet": ["gohfacopenerset"],
          "T_GoHFacNow": ["gohfacnow"], "T_GoHFacConsec": ["gohfacconsec"], "T_GoHFacNever": ["gohfacnever"],
          "T_GoHFacChain": ["gohfaclayers", "gohfaccloser", "gohfacopener", "gohfacopenerset"],
-         "I_Core": [], "Props.RunAll": [], "I_RC": ["gorciclear", "gorciadv", "gorciops"], "I_TC": "gotci", "I_Call": "gocalli",
+         "I_Core": [], "Props.RunAll": [], "I_Fb": "gofbi", "I_RC": ["gorciclear", "gorciadv", "gorciops"], "I_TC": "gotci", "I_Call": "gocalli",
          "T_GoLiveLogic": ["goneveropens", "gonevercloses", "gohopenercfg", "gohclosercfg", "goslocfg"]}
 
 def units_of(prop):
